@@ -234,6 +234,9 @@ detail::TypedArgBase*
    mSubGroupArgs.addArgument( arg_hdl, key);
    mDescription.addArgument( desc, arg_hdl);
 
+   // normal and sub-group arguments of a handler share one key space
+   mArguments.checkArgMix( "arguments", "sub-group arguments", mSubGroupArgs);
+
    // the key of a sub-group argument must not collide with an argument of
    // another handler of the same argument group either
    if (mUsedByGroup)
@@ -1357,6 +1360,9 @@ detail::TypedArgBase* Handler::internAddArgument( detail::TypedArgBase* ah_obj,
 
    mArguments.addArgument( ah_obj, key);
    mDescription.addArgument( desc, ah_obj);
+
+   // normal and sub-group arguments of a handler share one key space
+   mSubGroupArgs.checkArgMix( "sub-group arguments", "arguments", mArguments);
 
    if (mUsedByGroup)
       Groups::instance().crossCheckArguments( this);
